@@ -31,6 +31,8 @@ class Terms:
                 n = c.split("::")[-1]
                 if n == "len" and s[5]:
                     t = ("len", strip(self.op(s[5][0], depth - 1)))
+                elif n == "is_empty" and s[5]:
+                    t = ("call_is_empty", strip(self.op(s[5][0], depth - 1)))
                 elif n in ("deref", "deref_mut", "as_slice", "as_ref", "borrow", "as_mut_slice", "clone", "to_owned") and s[5]:
                     t = self.op(s[5][0], depth - 1)
                 else:
@@ -163,6 +165,112 @@ def check_function(f):
     return bad, guarded
 
 
+def _const_of(t):
+    """integer value of a constant term ('k', "['i', 'usize', '2']") or None"""
+    if isinstance(t, tuple) and t and t[0] == "k":
+        import ast
+        try:
+            v = ast.literal_eval(t[1])
+            if isinstance(v, list) and len(v) >= 3 and v[0] == "i":
+                return int(v[2])
+        except Exception:
+            return None
+    return None
+
+
+def check_const_index(f):
+    """index accesses with a constant index k whose container's length is compared with constants on the way:
+    the interval the dominating comparisons leave for len must exclude 0..=k"""
+    T = Terms(f)
+    sites = index_sites(f, T)
+    if not sites:
+        return [], 0
+    dom = dominators(f)
+    bad = []
+    guarded = 0
+    INF = 1 << 62
+    for b, item, idx, cont in sites:
+        k = _const_of(idx)
+        if k is None:
+            continue
+        lo, hi = 0, INF
+        seen = False
+        for d in dom.get(b, ()):
+            if d == b:
+                continue
+            t = f.term(d)
+            if t[KIND] != "switch" or t[4][0] not in ("cp", "mv"):
+                continue
+            c = T.op(t[4])
+            # which edge leads to b
+            val = None
+            for v, tb in t[6]:
+                if tb == b or tb in dom.get(b, ()):
+                    val = int(v)
+            other = val is None and (t[7] == b or t[7] in dom.get(b, ()))
+            if val is None and not other:
+                continue
+            listed = [int(v) for v, _ in t[6]]
+            if c == ("len", cont):
+                # match on the length itself
+                seen = True
+                if val is not None:
+                    lo, hi = max(lo, val), min(hi, val)
+                else:
+                    while lo in listed:
+                        lo += 1
+                continue
+            neg = False
+            while c[0] == "un" and c[1] == "not":
+                c = c[2]
+                neg = not neg
+            if c[0] == "call_is_empty" and c[1] == cont:
+                seen = True
+                truth = (val != 0) if val is not None else (0 in listed)
+                if neg:
+                    truth = not truth
+                if truth:
+                    hi = min(hi, 0)
+                else:
+                    lo = max(lo, 1)
+                continue
+            if c[0] != "bin" or c[1] not in FLIP:
+                continue
+            x, y, op = c[2], c[3], c[1]
+            if x == ("len", cont) and _const_of(y) is not None:
+                n = _const_of(y)
+            elif y == ("len", cont) and _const_of(x) is not None:
+                n = _const_of(x)
+                op = FLIP[op]
+            else:
+                continue
+            seen = True
+            truth = (val != 0) if val is not None else (0 in listed)
+            if neg:
+                truth = not truth
+            if not truth:
+                op = NEG[op]
+            # len op n
+            if op == "lt":
+                hi = min(hi, n - 1)
+            elif op == "le":
+                hi = min(hi, n)
+            elif op == "gt":
+                lo = max(lo, n + 1)
+            elif op == "ge":
+                lo = max(lo, n)
+            elif op == "eq":
+                lo, hi = max(lo, n), min(hi, n)
+            elif op == "ne" and lo == n:
+                lo = n + 1
+        if not seen:
+            continue
+        guarded += 1
+        if lo <= k and lo <= hi:
+            bad.append((item, k, lo, hi if hi < INF else None))
+    return bad, guarded
+
+
 def run(ck, facts, R, crates, floor=25):
     ck.rule(R, "where a function compares an index with the length of the container it then indexes (a checked access: compiler-inserted bounds assert or Index::index), the relation that holds on the edge to the access implies index < length; `index <= length` (or a reversed test) is an off-by-one in a check the author wrote to turn a bad index into a diagnostic")
     n = 0
@@ -176,3 +284,13 @@ def run(ck, facts, R, crates, floor=25):
                 ck.bad(R, "guard|%s|i-%s-len" % (f.short, rel), "%s checks the index against the length before indexing, but the check only establishes `index %s length` on the way to the access at %s: index == length passes the check and the access panics (index out of bounds) instead of producing the intended diagnostic" % (f.short, {"le": "<=", "ge": ">=", "gt": ">", "eq": "==", "ne": "!="}.get(rel, rel), f.where(item)), f.where(item))
     ck.floor(R, "guarded_index_accesses", n, floor)
     ck.setcount("guarded_index_accesses_consistent", n)
+    m = 0
+    for cn in crates:
+        for f in facts.crate(cn).fns:
+            if f.kind == "promoted" or "::test" in f.path:
+                continue
+            bad, guarded = check_const_index(f)
+            m += guarded
+            for item, k, lo, hi in bad:
+                ck.bad(R, "const-index|%s|%d" % (f.short, k), "%s indexes element %d of a container whose length it has just compared with constants, but on the way to the access at %s those comparisons only establish %d <= length%s: an empty / shorter container passes and the access panics (index out of bounds)" % (f.short, k, f.where(item), lo, (" <= %d" % hi) if hi is not None else ""), f.where(item))
+    ck.floor(R, "length_guarded_constant_index_accesses", m, 80)
